@@ -6,6 +6,7 @@ pub mod c01;
 pub mod c02;
 pub mod c03;
 pub mod c04;
+pub mod c05;
 pub mod c06;
 pub mod c07;
 pub mod c08;
@@ -17,13 +18,17 @@ pub mod c12;
 pub mod c13;
 pub mod c14;
 pub mod c16;
+pub mod c17;
 pub mod c18;
+pub mod c19;
+pub mod c20;
 
 pub fn register(t: &mut Table) {
     c01::register(t);
     c02::register(t);
     c03::register(t);
     c04::register(t);
+    c05::register(t);
     c06::register(t);
     c07::register(t);
     c08::register(t);
@@ -34,5 +39,8 @@ pub fn register(t: &mut Table) {
     c13::register(t);
     c14::register(t);
     c16::register(t);
+    c17::register(t);
     c18::register(t);
+    c19::register(t);
+    c20::register(t);
 }
